@@ -342,6 +342,10 @@ func rewriteSelect(fset *token.FileSet, sel *ast.SelectStmt, n int) ([]ast.Stmt,
 	hd := "false"
 	if hasDefault {
 		hd = "true"
+	} else {
+		// keeps the statement "terminating" exactly when the select was (a switch needs a default for that)
+		sw.Body.List = append(sw.Body.List, &ast.CaseClause{Body: []ast.Stmt{&ast.ExprStmt{X: &ast.CallExpr{
+			Fun: ast.NewIdent("panic"), Args: []ast.Expr{&ast.BasicLit{Kind: token.STRING, Value: strconv.Quote("verif: select resolved to no case")}}}}}})
 	}
 	sw.Tag = &ast.CallExpr{
 		Fun:  &ast.SelectorExpr{X: ast.NewIdent("vchan__"), Sel: ast.NewIdent("Select")},
